@@ -48,7 +48,14 @@ type Part struct {
 	// that is never defined). How an absent name prints is not asserted; all absent reads of one
 	// render must print the same (see undef).
 	O bool `json:"o,omitempty"`
+	// S: the rendering of the value is not asserted, but every read carrying the same group name S
+	// of the same value must print the same non-empty text (a prop read inside slot content and the
+	// same value read outside the slot).
+	S string `json:"s,omitempty"`
 }
+
+// same stands, in the expected output, for "whatever this value prints"; see Part.S.
+const same = "\x02SAME:"
 
 // undef stands, in the expected output, for "whatever an undefined name prints".
 const undef = "\x01UNDEF\x01"
@@ -125,6 +132,12 @@ type Case struct {
 	// components/KOne.vuego, docs/components.md "Component Shorthands") and the engine is created
 	// with vuego.WithComponents(). All component files must then live in components/.
 	Short bool `json:"short,omitempty"`
+	// Root: Go type of the root data handed to the engine: "" map[string]any, mapss / *mapss
+	// map[string]string, mapsi map[string]int, struct / *struct (rootData: Pa, Pb and the fields
+	// Pe, Pn promoted from an embedded struct).
+	Root string `json:"root,omitempty"`
+	// Entry: "" Template API (NewFS.Load.Fill.Render), "vue" Vue.Render, "fragment" Vue.RenderFragment.
+	Entry string `json:"entry,omitempty"`
 }
 
 // ---------------------------------------------------------------------------------------------
@@ -136,17 +149,28 @@ func render(c Case) (string, error) {
 	for k, v := range files(c) {
 		m[k] = &fstest.MapFile{Data: []byte(v)}
 	}
-	data := map[string]any{}
-	for k, v := range c.Data {
-		data[k] = v.Go()
+	data := rootValue(c)
+	var buf bytes.Buffer
+	w := &limited{w: &buf, left: 8 << 20}
+	if c.Entry != "" {
+		v := vuego.NewVue(m)
+		if c.Short {
+			vuego.WithComponents()(v)
+		}
+		var err error
+		if c.Entry == "fragment" {
+			err = v.RenderFragment(w, "page.vuego", data)
+		} else {
+			err = v.Render(w, "page.vuego", data)
+		}
+		return buf.String(), err
 	}
 	var opts []vuego.LoadOption
 	if c.Short {
 		opts = append(opts, vuego.WithComponents())
 	}
 	tpl := vuego.NewFS(m, opts...)
-	var buf bytes.Buffer
-	err := tpl.Load("page.vuego").Fill(data).Render(context.Background(), &limited{w: &buf, left: 8 << 20})
+	err := tpl.Load("page.vuego").Fill(data).Render(context.Background(), w)
 	return buf.String(), err
 }
 
@@ -252,12 +276,26 @@ func checkRendered(c Case, want []*hx.N) error {
 	}
 	go_, wo := observe(gl), observe(want)
 	undefAt, undefText := -1, ""
+	sameAt := map[string]int{}
 	for i := 0; i < len(go_) || i < len(wo); i++ {
 		switch {
 		case i >= len(go_):
 			return fmt.Errorf("marker #%d: expected %v, output ends\nwant outline %s\ngot  outline %s\noutput: %s\n%s", i, wo[i], hx.Outline(want), hx.Outline(gl), got, describe(c))
 		case i >= len(wo):
 			return fmt.Errorf("marker #%d: unexpected extra %v\nwant outline %s\ngot  outline %s\noutput: %s\n%s", i, go_[i], hx.Outline(want), hx.Outline(gl), got, describe(c))
+		case strings.Contains(wo[i].Text, same):
+			if go_[i].ID != wo[i].ID || go_[i].Attrs != wo[i].Attrs {
+				return fmt.Errorf("marker #%d: got %v want %v\nwant outline %s\ngot  outline %s\noutput: %s\n%s", i, go_[i], wo[i], hx.Outline(want), hx.Outline(gl), got, describe(c))
+			}
+			if go_[i].Text == "" {
+				return fmt.Errorf("marker #%d %s prints nothing for a value that is there\noutput: %s\n%s", i, go_[i].ID, got, describe(c))
+			}
+			if first, seen := sameAt[wo[i].Text]; !seen {
+				sameAt[wo[i].Text] = i
+			} else if go_[first].Text != go_[i].Text {
+				return fmt.Errorf("marker #%d %s prints %q and marker #%d %s prints %q for the same value (one reads it outside the slot, the other as a slot prop / another use)\noutput: %s\n%s",
+					first, go_[first].ID, go_[first].Text, i, go_[i].ID, go_[i].Text, got, describe(c))
+			}
 		case strings.Contains(wo[i].Text, undef):
 			// An absent slot prop must print like a never-defined name. Every such read (the absent
 			// props and the never-defined control next to each of them) has a marker of its own.
@@ -425,6 +463,23 @@ func TestProp(t *testing.T) {
 			return true
 		})
 	}
+	shapes := 0
+	if done {
+		for _, enum := range []func(func(Case) bool){enumRoots, enumStructs} {
+			enum(func(c Case) bool {
+				shapes++
+				if shapes%shards != shard {
+					return true
+				}
+				_, cls := classify(c)
+				if !run.Each(rec, "core", c, true, cls, check) {
+					done = false
+					return false
+				}
+				return true
+			})
+		}
+	}
 	hand := 0
 	if done {
 		enumHand(ex, rec, func(c Case) bool {
@@ -441,7 +496,7 @@ func TestProp(t *testing.T) {
 		})
 	}
 	if done {
-		rec.Exhaustive(fmt.Sprintf("core: slot sets x fallback x props x loop x twice x every supply form per slot x 2 instances (%d cases) + supplied-but-empty content x every form (%d cases) + page->layout hand-over: spelling x scope x slot placement x slot in the layout file x own supply (%d cases) + white space: supply form x slot in <pre> / per item in <pre> x edge and inner runs x literal props (%d cases)", n, edge, hand, wsN))
+		rec.Exhaustive(fmt.Sprintf("core: slot sets x fallback x props x loop x twice x every supply form per slot x 2 instances (%d cases) + supplied-but-empty content x every form (%d cases) + page->layout hand-over: spelling x scope x slot placement x slot in the layout file x own supply (%d cases) + white space: supply form x slot in <pre> / per item in <pre> x edge and inner runs x literal props (%d cases) + data shapes: root data kind x entry point x supply form, struct-valued slot props x supply form x placement (%d cases)", n, edge, hand, wsN, shapes))
 	}
 
 	if compose.Hung() {
@@ -449,6 +504,13 @@ func TestProp(t *testing.T) {
 		return
 	}
 	run.Rapid(t, rec, "random", func(t *rapid.T) Case { return genCase(t, ex, rec) }, classify, check)
+	if compose.Hung() {
+		return
+	}
+	run.Rapid(t, rec, "shape", genShape, func(c Case) (bool, []string) {
+		_, cls := classify(c)
+		return true, cls
+	}, check)
 	if compose.Hung() {
 		return
 	}
